@@ -14,6 +14,8 @@ HERE = os.path.dirname(os.path.abspath(__file__))
 sys.path.insert(0, os.path.join(HERE, "harness"))
 os.environ.setdefault("CUQIPY_VERIF", "1")
 os.environ.setdefault("TQDM_DISABLE", "1")
+for _v in ("OMP_NUM_THREADS", "OPENBLAS_NUM_THREADS", "MKL_NUM_THREADS"):
+    os.environ.setdefault(_v, "1")        # small problems: BLAS threads only oversubscribe the machine
 os.chdir(HERE)
 
 
